@@ -10,7 +10,7 @@ from common import clist, cq, cz, copt
 from gen import resfile as rf
 import impl_model as im
 
-THEOREMS = ['C16_unpack_given', 'C16_unpack_omitted', 'C16_hklf_full', 'C16_hklf_short', 'C16_twin_forms', 'C16_zerr_slots',
+THEOREMS = ['C16_unpack_given', 'C16_unpack_omitted', 'C16_set_is_parse', 'C16_stale_attribute_refuted', 'C16_hklf_full', 'C16_hklf_short', 'C16_twin_forms', 'C16_zerr_slots',
             'C16_ls_setter', 'C16_defs_defaults']
 IMPORTS = 'From SX Require Import Base.Prelude Base.Str Model.Attrs.\nFrom Coq Require Import QArith.\nOpen Scope Q_scope.\n'
 HEAD = ['TITL test', 'CELL 0.71073 10.5 11.2 12.3 90 95.5 90', 'ZERR 4 0.001 0.002 0.003 0.01 0.02 0.03', 'LATT 1', 'SYMM -X, 1/2+Y, 1/2-Z',
